@@ -23,6 +23,9 @@ FAMILIES = {
 }
 
 
+SEEDED_FAMILIES = ("deep",)
+
+
 def spec_hash(module=None, cfg=None):
     """Hash of the model: the module, everything it EXTENDS (transitively, within spec/) and its cfg."""
     if module is None:
@@ -62,7 +65,8 @@ def tlc_family(prop, fam, tier, seed, extra_env=None):
         log(f"[tlc] {module}: reusing model run of this spec version ({d['stats']['distinct']} states, "
             f"{len(d['cases'])} behaviours; TLC took {d['stats']['wall']:.1f}s)")
         return d["cases"], d["stats"]
-    r = run_tlc(prop, module, cfg=cfg, tier=tier, seed=seed, extra_env=extra_env)
+    r = run_tlc(prop, module, cfg=cfg, tier=tier, seed=seed, extra_env=extra_env,
+                timeout=900 if tier == "quick" else 3600, workers=8 if tier == "quick" else 12)
     stats = {"generated": r.generated, "distinct": r.distinct, "wall": r.wall, "module": module}
     with open(cpath, "w") as f:
         json.dump({"cases": r.cases, "stats": stats}, f)
@@ -91,8 +95,9 @@ def issue_property(case, issue, all_issues):
             return "C11"
         if what == "panic":
             return "C06"
-        if case.get("family") == "scoping":
-            # a binding structure wrongly rejected / accepted: the scope rules of C10 (and thereby C04)
+        if case.get("family") in ("scoping", "fold", "forwhile"):
+            # a program of a single-construct family wrongly rejected / accepted: the statement about that construct
+            # (binding structures C10, fold C08, for_while C09) is contradicted, and thereby C04
             return case.get("verdict_prop", "C04")
         return "C04"
     if at in ("parameters", "argmap", "alt"):
@@ -234,6 +239,13 @@ def run_prog_property(prop, fams, tier, seed, rule, assumptions, select=None, ex
     all_cases, stats = [], []
     for fam in fams:
         cases, st = tlc_family(prop, fam, tier, seed)
+        if fam in SEEDED_FAMILIES and tier != "quick":
+            # families drawn from a pseudo-random stream: the thorough tier explores four consecutive seeds
+            for extra_seed in range(seed + 1, seed + 4):
+                more, st2 = tlc_family(prop, fam, tier, extra_seed)
+                cases = cases + more
+                st = {"generated": st["generated"] + st2["generated"], "distinct": st["distinct"] + st2["distinct"],
+                      "wall": st["wall"] + st2["wall"], "module": st["module"]}
         cases = [dict(c) for c in cases if (select is None or select(c))]
         for c in cases:
             c["family"] = fam
